@@ -590,6 +590,7 @@ type HarnessResult struct {
 	Violations []PathResult // distinct by verdict string (first model kept), not covered
 	Known      map[string]int
 	VCount     map[string]int
+	Alt        map[string][]PathResult // further paths with the same verdict (other counterexamples)
 	Aborts     []PathResult
 	Queries    int
 	SolverTime time.Duration
@@ -618,7 +619,7 @@ type Explorer struct {
 }
 
 func (ex *Explorer) Run(fn *ssa.Function) *HarnessResult {
-	hr := &HarnessResult{Name: fn.Name(), Verdicts: map[string]int{}, Known: map[string]int{}, VCount: map[string]int{}, Funcs: map[string]bool{}, Reached: map[string]bool{}}
+	hr := &HarnessResult{Name: fn.Name(), Verdicts: map[string]int{}, Known: map[string]int{}, VCount: map[string]int{}, Alt: map[string][]PathResult{}, Funcs: map[string]bool{}, Reached: map[string]bool{}}
 	t0 := time.Now()
 	var mu sync.Mutex
 	cond := sync.NewCond(&mu)
@@ -698,6 +699,8 @@ func (ex *Explorer) Run(fn *ssa.Function) *HarnessResult {
 					} else if !seenViol[vs] {
 						seenViol[vs] = true
 						hr.Violations = append(hr.Violations, res)
+					} else if len(hr.Alt[vs]) < 6 && (hr.VCount[vs] < 40 || hr.VCount[vs]%7 == 0) {
+						hr.Alt[vs] = append(hr.Alt[vs], res)
 					}
 				}
 				if len(hr.Samples) < 6 && res.Verdict.Kind == "OK" && len(res.Vars) > 0 {
